@@ -462,6 +462,12 @@ inline void init(int argc, char** argv) {
     set_log_output_level(ALOG_FATAL + 1);       // the library logs every expected failure
     setvbuf(stderr, nullptr, _IOLBF, 0);
 }
+// to be called before objects that the stuck handler reads are destroyed
+inline void stop_supervisor() {
+    auto& S = st();
+    S.supervisor_stop.store(true);
+    if (S.supervisor.joinable()) S.supervisor.join();
+}
 inline int finish() {
     auto& S = st();
     S.supervisor_stop.store(true);
